@@ -15,6 +15,7 @@
 -/
 import FastPasta.Model.Cdp
 import FastPasta.Proofs.Bits
+import FastPasta.Proofs.RdhSrcTie
 namespace FastPasta
 namespace C10
 
@@ -282,6 +283,47 @@ example : SecondPageIsOne [{ (default : Rdh) with pagesCounter := 0 }, { (defaul
   intro r h; simp at h; subst h; rfl
 example : RunningSpec [] { (default : Rdh) with pagesCounter := 0 } := by decide
 example : ¬ RunningSpec [] { (default : Rdh) with pagesCounter := 3 } := by decide
+
+
+/-! ### the same statement about the functions TRANSLATED FROM THE RUST SOURCE on this run
+    (`Spec/RdhSrcGen.lean`, generated by `tools/rs2lean.py` from `rdh0..3.rs`, `rdh_cru.rs`, `validators/rdh.rs`, `words/its.rs`;
+    `Proofs/RdhSrcTie.lean` proves loader = `decodeRdh` and `sanity_check` = `rdhSanityBad`) -/
+open SrcRdh in
+/-- for all 2^512 headers: the source's `RdhCruSanityValidator::sanity_check`, in the state the source's constructors build
+    (`new`, `with_specialization(ITS)`, `specialize(ITS)`) with any learnt header id, on the header the source's loader builds from
+    the 64 bytes, is `Ok` exactly when the documented rule list holds; an `Err` carries `[E10]`; afterwards the validator expects
+    the learnt header id -/
+theorem sanity_src_iff (bs : Bytes) (h : bs.length = 64) (hid : Option Nat) (its : Bool) :
+    ∃ c, SrcTie.loadRdh bs = .ok c ∧
+      ((RdhCruSanityValidator.sanity_check (SrcTie.mkValidator hid (if its then some 32 else none)) c).1.isErr = false ↔
+        RdhSaneSpec (hid.getD (decodeRdh bs).headerId) its (leNat bs)) ∧
+      ((RdhCruSanityValidator.sanity_check (SrcTie.mkValidator hid (if its then some 32 else none)) c).1.isErr = true →
+        ∃ cs, (RdhCruSanityValidator.sanity_check (SrcTie.mkValidator hid (if its then some 32 else none)) c).1.errStr.codes = 10 :: cs) ∧
+      (RdhCruSanityValidator.sanity_check (SrcTie.mkValidator hid (if its then some 32 else none)) c).2 =
+        SrcTie.mkValidator (some (hid.getD (decodeRdh bs).headerId)) (if its then some 32 else none) := by
+  obtain ⟨c, hc, _, he, hcode, hst⟩ := SrcTie.sanity_check_bytes hid (if its then some 32 else none) bs
+  exact ⟨c, hc, by rw [he]; exact sanity_iff bs h _ its, hcode, hst⟩
+
+/-- the validator states of the source's constructors -/
+theorem validator_states_src :
+    SrcRdh.RdhCruSanityValidator.new = SrcTie.mkValidator none none ∧
+    SrcRdh.RdhCruSanityValidator.with_specialization .ITS = SrcTie.mkValidator none (some 32) ∧
+    (∀ h s, (SrcRdh.RdhCruSanityValidator.specialize (SrcTie.mkValidator h s) .ITS).2 = SrcTie.mkValidator h (some 32)) :=
+  ⟨SrcTie.new_eq, SrcTie.with_its_eq, SrcTie.specialize_eq⟩
+
+/-- the source's loader and accessors are the model's `decodeRdh` and field functions -/
+theorem loader_src (bs : Bytes) : ∃ c, SrcTie.loadRdh bs = .ok c ∧ SrcTie.toModel c = decodeRdh bs ∧
+    c.payload_size = (decodeRdh bs).payloadSize ∧ c.cru_id = (decodeRdh bs).cruId ∧ c.link_id = (decodeRdh bs).linkId ∧
+    c.fee_id = (decodeRdh bs).feeId ∧ c.version = (decodeRdh bs).headerId ∧ c.stop_bit = (decodeRdh bs).stopBit ∧
+    c.pages_counter = (decodeRdh bs).pagesCounter ∧ c.trigger_type = (decodeRdh bs).triggerType ∧
+    c.offset_to_next = (decodeRdh bs).offsetNext ∧ c.dw = (decodeRdh bs).dw ∧ c.data_format = (decodeRdh bs).dataFormat := by
+  obtain ⟨c, hc, hm⟩ := SrcTie.load_eq_decode bs
+  have hcd : c.f_cruid_dw.f_0 < 65536 := by
+    have : c.f_cruid_dw.f_0 = (decodeRdh bs).cruidDw := by rw [← hm]; rfl
+    rw [this]; exact SrcTie.leField_lt bs 14 2
+  have := SrcTie.accessors_eq c hcd
+  rw [hm] at this
+  exact ⟨c, hc, hm, this⟩
 
 end C10
 end FastPasta
